@@ -169,9 +169,18 @@ def gen_gfa1(rng, k):
         st = ostyle if ostyle != "mixed" else rng.choice(["star", "match", "asym", "all"])
         la = seglen[a] if seglen[a] is not None else 9
         lb = seglen[b] if seglen[b] is not None else 9
-        if k.get("lens", False):
+        if k.get("lens", False) == "full":
+            if rng.random() < 0.5:
+                # the overlap covers a whole segment (only used by the GFA2-view arm of C06)
+                n = min(la, lb)
+                ov = "%dM" % n
+            else:
+                ov = gen_cigar(rng, st, la, lb)
+        elif k.get("lens", False):
             la, lb = la - 1, lb - 1
-        ov = gen_cigar(rng, st, la, lb)
+            ov = gen_cigar(rng, st, la, lb)
+        else:
+            ov = gen_cigar(rng, st, la, lb)
         key_a = (a, fo, b, to)
         key_b = (b, inv(to), a, inv(fo))
         ck = min(key_a, key_b)
